@@ -95,6 +95,10 @@ def _query(pg, c, q):
     if kind == 'sfs.mean': return c.sfs.mean
     if kind == 'sfs.var': return c.sfs.var
     if kind == 'sfs.cov': return c.sfs.cov
+    if kind == 'sfs.corr': return c.sfs.corr
+    if kind == 'fsfs.corr': return c.fsfs.corr
+    if kind == 'th.demes.corr': return c.tree_height.demes.corr
+    if kind == 'th.loci.corr': return c.tree_height.loci.corr
     if kind == 'sfs.get_cov': return c.sfs.get_cov(q[1], q[2])
     if kind == 'sfs.moment': return c.sfs.moment(k=q[1], end_time=q[2])
     if kind == 'sfs.accumulate': return c.sfs.accumulate(q[1], list(q[2]))
@@ -259,14 +263,17 @@ def rand_query(rng, cfg, quick, light=False):
                  (1, lambda: ('sfs.accumulate', 1, ts())),
                  (1, lambda: ('sfs.deme.mean', rng.choice(names)))]
         if cov_ok(cfg, quick) and not light:
-            opts += [(2, lambda: ('sfs.cov',)), (1, lambda: ('sfs.var',)), (1, lambda: ('fsfs.cov',))]
+            opts += [(2, lambda: ('sfs.cov',)), (1, lambda: ('sfs.var',)), (1, lambda: ('fsfs.cov',)), (2, lambda: ('sfs.corr',)),
+                     (1, lambda: ('fsfs.corr',))]
         if single:
             th = lambda: rng.choice([0.0, 0.125, 0.5, 1.0, 2.0, 0.3])
             opts += [(6, lambda: ('mutcfg', rand_config_vec(rng, n - 1, rng.randint(0, 3)), th())),
                      (3, lambda: ('fmutcfg', rand_config_vec(rng, n // 2, rng.randint(0, 3)), th()))]
     else:
         opts += [(3, lambda: ('th.loci.mean', rng.randrange(2))), (2, lambda: ('tbl.loci.mean', rng.randrange(2))),
-                 (2, lambda: ('th.loci.cov',))]
+                 (2, lambda: ('th.loci.cov',)), (1, lambda: ('th.loci.corr',))]
+    if len(names) >= 2 and not light:
+        opts += [(1, lambda: ('th.demes.cov',)), (1, lambda: ('th.demes.corr',))]
     w = [o[0] for o in opts]
     return rng.choices(opts, weights=w)[0][1]()
 
